@@ -85,4 +85,10 @@ theorem msg_ids_unique (n : Nat) : callIds n none = (List.range n).map (· + 1) 
     congr 1
     apply List.map_congr_left; intro i _; simp; omega
 
+/-- ... hence no id is handed out twice in a thread, however many are drawn -/
+theorem msg_ids_nodup (n : Nat) : (callIds n none).Nodup := by
+  rw [msg_ids_unique]
+  rw [List.nodup_iff_pairwise_ne, List.pairwise_map]
+  exact List.Pairwise.imp (fun h => by omega) (List.nodup_iff_pairwise_ne.mp List.nodup_range)
+
 end Dicom.C20
